@@ -17,7 +17,8 @@ Inductive akey :=
 | YCmpTs (f : str) (op : cmpop) (part : str) (txt : str)
 | YTs (f : str) (part : str) (txt : str)
 | YExists (f : str)
-| YFieldRef (f : str) (f2 : str) (sw ew : bool).
+| YFieldRef (f : str) (f2 : str) (sw ew : bool)
+| YQx (f : str) (id : str).
 
 Definition key_of (a : atom) : akey :=
   let f := a_field a in
@@ -32,6 +33,7 @@ Definition key_of (a : atom) : akey :=
   | ATs p t => YTs f p t
   | AExists => YExists f
   | AFieldRef g sw ew => YFieldRef f g sw ew
+  | AQx i => YQx f i
   end.
 
 Definition akey_eqb (a b : akey) : bool :=
@@ -45,6 +47,7 @@ Definition akey_eqb (a b : akey) : bool :=
   | YCmpTs f o p t, YCmpTs f' o' p' t' => str_eqb f f' && cmpop_eqb o o' && str_eqb p p' && str_eqb t t'
   | YTs f p t, YTs f' p' t' => str_eqb f f' && str_eqb p p' && str_eqb t t'
   | YFieldRef f g a b, YFieldRef f' g' a' b' => str_eqb f f' && str_eqb g g' && Bool.eqb a a' && Bool.eqb b b'
+  | YQx f i, YQx f' i' => str_eqb f f' && str_eqb i i'
   | _, _ => false
   end.
 
